@@ -40,7 +40,7 @@ T = {
          "Every response must come back to the request's source socket with its sequence number and the peer's SEID (0 with cause 65 for unknown sessions); accepted Establishment Responses must carry node id and a UP F-SEID that addresses the session; error/unanswered requests must leave driver log and snapshot unchanged; an Establishment Response must not hand out a UP F-SEID another live session holds; one recovery time stamp per server; histories include retransmissions, second sockets, take-over, re-association and churn bursts (several deletions, then as many establishments).",
          "As C04."),
  "C09": ("exploration",
-         "TX-transaction model over recorded datagrams with injected timer expiries, bounded-exhaustive + random event orders; real-timer cases racing a queued expiry against the answer",
+         "TX-transaction model over recorded datagrams with injected timer expiries, bounded-exhaustive + random event orders; real-timer cases racing a queued expiry against the answer (goroutine-dump witness when transaction handling blocks for ever)",
          "Reports injected for several sessions/peers; TX expiries injected at chosen points; responses scripted (matching, duplicate, wrong peer, wrong sequence); checks distinct outstanding wire sequence numbers (also across 2^24 and 2^32), byte-identical retransmissions, retry bound, stop on response, release of bookkeeping. Real-timer cases (15-40 ms) hold the loop in a gated driver call until expiries and answers are both queued, release it, and require on the wire that nothing is retransmitted after the UPF has handled the answer (marker heartbeat on the same socket).",
          "Counter positioned through a build-tagged hook; expiry injected through the exported NotifyTransTimeout."),
  "C10": ("exploration",
@@ -64,7 +64,7 @@ T = {
          "All QFI 0..63 x PDU type 0..15 x with/without container x boundary TEIDs x payload lengths (thorough: every length 0..1500) decoded by an independent decoder written from TS 29.281 / TS 38.415. Sequences of 4-14 packets (lengths up and down, with/without QoS flow, changing TEIDs) go through the real Gtp5g.WritePacket to a UDP listener and are decoded by the same decoder; every second packet first goes the way a buffered packet takes (BUFFER netlink message, buffering listener, hand-over); C13 exercises the same path end to end.",
          "Decoder is harness code written from the specifications."),
  "C15": ("exploration",
-         "registered-set model per period against the real perio server with injected ticks; ticker-goroutine census",
+         "registered-set model per period against the real perio server with injected ticks; ticker-goroutine census; exactly-once delivery under a token-gated busy consumer",
          "Random add/remove histories over sessions, URRs and periods against the real perio.Server; every injected tick must query exactly the model set, deliver each report once marked PERIO; ticker goroutines must match non-empty periods and vanish on Close; driver level: batch union/size at the simulated kernel, with a third of the removals refused by the kernel; a few cases with real 1 s / 2 s tickers (bounded progress).",
          "Tick injection via build-tagged hook; goroutine census by runtime stack scan."),
  "C16": ("exploration",
@@ -72,7 +72,7 @@ T = {
          "Generated IPFilterRule strings are parsed by ParseFlowDesc and by a reference parser; the packed form captured at the simulated kernel is decoded with gtp5gnl.DecodeFlowDesc and compared (swapped for uplink); junk strings must not fault.",
          "Reference parser is harness code."),
  "C17": ("exploration",
-         "Go race detector + panic capture + goroutine census after Stop + exactly-once accounting under randomized stress",
+         "Go race detector + panic capture + goroutine census after Stop + exactly-once accounting (injected and kernel-issued periodic reports) under randomized stress",
          "Full stack under -race with 2-4 SMFs, concurrent report producers, millisecond timers and tickers and a Stop at a seeded point through the real shutdown path.",
          "Race reports are attributed by the innermost non-runtime frame of each access; schedules not produced are not decided."),
  "C18": ("exploration",
